@@ -16,7 +16,8 @@ def run(tier, seed, replay=None):
     rng = random.Random(seed * 7919 + 13)
     if replay:
         case = json.load(open(replay))["trace"]["input"]
-        cases = [case]
+        hist_index = case.get("index") if "hist" in case else None
+        cases = [case["hist"] if "hist" in case else case]
     else:
         for cfg in ("MC_kruskal.cfg", "MC_prim.cfg", "MC_cert.cfg", "MC_kruskal4.cfg", "MC_prim4.cfg"):
             ck.mc(DIR, "MstAlgs", cfg)
@@ -29,7 +30,11 @@ def run(tier, seed, replay=None):
             what = "noreturn" if isinstance(r, dict) and r.get("__noreturn__") else "raise"
             trs.append({"n": c["n"], "edges": c["edges"], "input": c, "events": [{"e": what, "solver": "worker", "what": "WorkerCrash"}]})
         else:
+            if replay and hist_index is not None:
+                trs.append(r["more"][hist_index])
+                continue
             trs.append(r["main"])
+            trs += r.get("more", [])
             ufs += r["uf"]
     vs = ck.validate(DIR, "MstTrace", trs, "kruskal (both allow_forest settings) and prim (3 start nodes) on the same multigraph")
     ck.classify(trs, vs, nontrivial=lambda t, v: len(t["edges"]) >= 2)
